@@ -483,6 +483,16 @@ func (p *Prog) layoutWrites(tname string, fd *ast.FuncDecl) ([]layoutAccess, []s
 		}
 	}
 	walk(fd.Body.List)
+	if pay != hdr+".payload" {
+		// assembled in a local: it reaches the wire only through the store that ends the function
+		stored := false
+		if n := len(fd.Body.List); n > 0 {
+			stored = squash(p.text(fd.Body.List[n-1])) == hdr+".payload="+pay
+		}
+		if !stored {
+			notes = append(notes, fmt.Sprintf("%s: the payload assembled in %s is not stored into %s.payload by the function's last statement: the frame goes out with whatever payload the header had before", p.pos(fd.Pos()), pay, hdr))
+		}
+	}
 	return acc, notes
 }
 
